@@ -50,7 +50,9 @@ type Config struct {
 	NoConsolidation      bool
 	ConsolidatingReclaim bool
 	Signatures           bool
-	FullHierarchy        bool
+	// ProjectLevelFairness: run with fullHierarchyFairness=false (queues are re-parented to one
+	// generated "default" parent); default = full hierarchy fairness, the scheduler's default
+	ProjectLevelFairness bool
 	SaturationMultiplier string // proportion plugin arg, "" = default
 	StalenessGrace       time.Duration
 	NodePoolKey          string
@@ -78,6 +80,9 @@ func (c Config) Label() string {
 	}
 	if c.Signatures {
 		parts = append(parts, "sig")
+	}
+	if c.ProjectLevelFairness {
+		parts = append(parts, "projfair")
 	}
 	if c.SaturationMultiplier != "" {
 		parts = append(parts, "sat"+c.SaturationMultiplier)
@@ -275,7 +280,7 @@ func buildConf(c Config) (*conf.SchedulerConfiguration, *conf.SchedulerParams) {
 		PartitionParams:                   &conf.SchedulingNodePoolParams{NodePoolLabelKey: c.NodePoolKey, NodePoolLabelValue: c.NodePoolValue},
 		MaxNumberConsolidationPreemptees:  maxCons,
 		UseSchedulingSignatures:           c.Signatures,
-		FullHierarchyFairness:             true,
+		FullHierarchyFairness:             !c.ProjectLevelFairness,
 		AllowConsolidatingReclaim:         c.ConsolidatingReclaim,
 		NumOfStatusRecordingWorkers:       2,
 		GlobalDefaultStalenessGracePeriod: grace,
